@@ -458,8 +458,17 @@ func c06History(t *testing.T, rep *vfReport, r *vfRng, nOps int) (ops, impl []st
 	script := []string{}
 	if r.Chance(45) {
 		script = []string{"write", "rstart", "capture"}
-		if r.Chance(50) {
+		switch r.Intn(3) {
+		case 0:
 			script = []string{"write", "write", "rstart", "capture", "rstop", "write", "capture"}
+		case 1:
+			// consecutive partial checkpoints on ONE WAL generation: overlapping readers keep
+			// the WAL from being reset, every capture resumes where the previous one stopped
+			script = []string{"write", "rstart", "capture", "write", "rstart", "rstop-first", "capture", "write"}
+			for k := r.Intn(3); k > 0; k-- {
+				script = append(script, "rstart", "rstop-first", "capture", "write")
+			}
+			script = append(script, "rstop-first", "capture")
 		}
 	}
 	for i := 0; i < nOps; i++ {
@@ -509,7 +518,7 @@ func c06History(t *testing.T, rep *vfReport, r *vfRng, nOps int) (ops, impl []st
 			hist = append(hist, fmt.Sprintf("R+%d", nextReader))
 			rep.Count("reader-start")
 			emit(fmt.Sprintf("rstart %d", nextReader), "ok")
-		case "rstop":
+		case "rstop", "rstop-first":
 			if len(e.readers) == 0 {
 				continue
 			}
@@ -520,6 +529,9 @@ func c06History(t *testing.T, rep *vfReport, r *vfRng, nOps int) (ops, impl []st
 				}
 			}
 			id := ids[r.Intn(len(ids))]
+			if op == "rstop-first" {
+				id = ids[0]
+			}
 			e.rstop(id)
 			hist = append(hist, fmt.Sprintf("R-%d", id))
 			rep.Count("reader-stop")
@@ -571,7 +583,7 @@ func c06History(t *testing.T, rep *vfReport, r *vfRng, nOps int) (ops, impl []st
 func TestVerifC06(t *testing.T) {
 	rep := vfNewReport("C06", "generated schedules of write transactions (1-4 statements: inserts with blobs up to 20 kB, updates, deletes, DDL), reader start/stop (≤3 concurrent read transactions on real read-only connections) and incremental/full checkpoint attempts on a real WAL-mode SQLite database; a schedule is non-trivial when at least one attempt was blocked (busy or all-moved-not-truncated) and at least one capture succeeded; distinct by outcome-annotated schedule")
 	defer rep.Write()
-	r := vfNewRng(6)
+	r := c06Rng(6)
 	n := vfScale(60, 1500)
 	var allOps, allImpl [][]string
 	for h := 0; h < n; h++ {
@@ -580,4 +592,12 @@ func TestVerifC06(t *testing.T) {
 		allImpl = append(allImpl, impl)
 	}
 	rep.vfCompareSegments("walckpt", allOps, allImpl)
+}
+
+// c06Rng decorrelates seeds: vfNewRng's streams for seeds k and k+1 are the same sequence
+// shifted by one draw, so the state is hashed once before use.
+func c06Rng(salt uint64) *vfRng {
+	r := vfNewRng(salt)
+	r.s = r.U64()*0x2545F4914F6CDD1D + salt
+	return r
 }
